@@ -11,7 +11,10 @@ import (
 // subject; here only shapes whose order every description of the scheme
 // agrees on are generated, as (release numbers, stage, stage number):
 //
-//	PEP 440   [E!]N(.N)*  with one of  .devN < aN < bN < rcN < (final) < .postN
+//	PEP 440   [E!]N(.N)*  with one of  .devN < aN < bN < rcN < (final) < .postN,
+//	          a pre-release number may be 0 or left out (1.0a = 1.0a0), and a pre or post
+//	          release may carry its own .devM, which sorts just below it:
+//	          X.devN < XaN.devM < XaN < … < X < X.postN.devM < X.postN
 //	RubyGems  N(.N)*      with one of  .<word>[.N] (prerelease, words by ASCII) < (release)
 //	Maven     N(.N)*      with one of  -alpha-N < -beta-N < -milestone-N < -rc-N < -SNAPSHOT < (release) < -sp-N
 //
@@ -21,7 +24,8 @@ type langVer struct {
 	release []string // canonical digits
 	stage   int      // 0 = final/release, <0 pre, >0 post
 	word    string   // RubyGems prerelease word (stage = -1)
-	num     string   // stage number ("" = none)
+	num     string   // stage number ("" = none, counts 0)
+	dev     string   // PEP 440: dev number of a pre / post release ("" = none); >= 1
 }
 
 func trimRelease(r []string) []string {
@@ -62,7 +66,19 @@ func cmpLang(a, b langVer) int {
 	if q == "" {
 		q = "0"
 	}
-	return cmpDigits(p, q)
+	if c := cmpDigits(p, q); c != 0 {
+		return c
+	}
+	// the dev release of a pre / post release sorts just below it
+	switch {
+	case a.dev == "" && b.dev == "":
+		return 0
+	case a.dev == "":
+		return 1
+	case b.dev == "":
+		return -1
+	}
+	return cmpDigits(a.dev, b.dev)
 }
 
 func genLangDigits(r *hx.Rand) string {
@@ -103,12 +119,18 @@ func genLang(r *hx.Rand, eco string) langVer {
 }
 
 func setStage(r *hx.Rand, eco string, v *langVer) {
-	v.word, v.num = "", ""
+	v.word, v.num, v.dev = "", "", ""
 	switch eco {
 	case "python":
-		v.stage = []int{-4, -3, -2, -1, 0, 1}[r.Intn(6)]
+		v.stage = []int{-4, -4, -3, -2, -1, 0, 1}[r.Intn(7)]
 		if v.stage != 0 {
 			v.num = posDigits(r)
+		}
+		if v.stage < 0 && v.stage > -4 && r.Chance(1, 2) {
+			v.num = r.Pick("0", "") // the zeroth pre-release, explicit or implicit
+		}
+		if v.stage != 0 && v.stage != -4 && r.Chance(1, 2) {
+			v.dev = posDigits(r)
 		}
 	case "ruby":
 		v.stage = []int{-1, 0}[r.Intn(2)]
@@ -144,8 +166,33 @@ func mutateLang(r *hx.Rand, eco string, v langVer) langVer {
 		}
 	case 3:
 		setStage(r, eco, &w)
+	case 5:
+		if eco == "python" && w.stage != 0 && w.stage != -4 {
+			// add, drop or change the dev number of a pre / post release
+			switch {
+			case w.dev == "":
+				w.dev = posDigits(r)
+			case r.Chance(1, 3):
+				w.dev = ""
+			default:
+				w.dev = capLang(bumpDigits(r, w.dev, posDigits))
+				if w.dev == "0" {
+					w.dev = "1"
+				}
+			}
+		} else if eco == "python" && w.stage == -4 {
+			// a plain dev release turns into the dev release of the zeroth pre-release, or gets a larger number
+			if r.Chance(1, 2) {
+				w.stage, w.dev, w.num = []int{-3, -2, -1}[r.Intn(3)], w.num, r.Pick("0", "")
+			} else {
+				w.num = capLang(w.num + string(rune('0'+r.Intn(10))))
+			}
+		} else {
+			i := r.Intn(len(w.release))
+			w.release[i] = capLang(bumpDigits(r, w.release[i], genLangDigits))
+		}
 	case 4:
-		if w.num != "" {
+		if w.num != "" && w.num != "0" {
 			w.num = capLang(bumpDigits(r, w.num, posDigits))
 			if w.num == "0" {
 				w.num = "1"
@@ -191,6 +238,9 @@ func renderLang(r *hx.Rand, eco string, v langVer, variants bool) string {
 			b.WriteString(pickV(r, variants, "rc", "c", ".rc", "pre", "-rc.", "preview", "-preview-") + v.num)
 		case 1:
 			b.WriteString(pickV(r, variants, ".post", "post", "-", "-r", ".rev") + v.num)
+		}
+		if v.dev != "" {
+			b.WriteString(pickV(r, variants, ".dev", "dev", "-dev", "_dev.") + v.dev)
 		}
 		if variants && r.Chance(1, 8) {
 			b.WriteString("+local.1")
